@@ -108,6 +108,18 @@ func compCmpBig(o *out, r *rng, tier string) {
 	if tier == "thorough" {
 		n = 40
 	}
+	// one match covering (almost) a whole 4 MiB block and more: the longest match-length encodings
+	// (about 16 Ki bytes of 0xFF) — the largest block a frame can hold, and a little beyond
+	for i, tail := range []int{4 << 20, (4 << 20) + 70000} {
+		for _, algo := range []string{"fast", "hc"} {
+			c := &cmpBigCase{noise: 16 * i, tail: tail, seed: r.intn(1000), algo: algo, depth: []int{0, 512}[i], ep: i}
+			if algo == "fast" {
+				c.depth = 0
+			}
+			o.emit("cmpbig", c.fields(), c.run(), true)
+			o.count("one-match-of-4MiB")
+		}
+	}
 	for i := 0; i < n; i++ {
 		c := &cmpBigCase{seed: r.intn(1000), algo: []string{"fast", "hc"}[i%2], depth: []int{512, 2048, 0}[r.intn(3)], ep: r.intn(2)}
 		switch i % 3 {
